@@ -1,6 +1,8 @@
 import WzVerif.Driver.Proto
 import WzVerif.Driver.C06
 import WzVerif.Model.RequestAttrs
+import WzVerif.Model.RequestBody
+import WzVerif.Model.Multipart
 namespace Wz.Driver.C07
 open Wz Wz.Proto Wz.Http Wz.Driver.C06
 
@@ -36,6 +38,33 @@ def acceptCmd {σ : Type} (N : Wz.Accept.Neg σ Wz.Accept.Q) (hdr : Option Str) 
   match Wz.Req.acceptOf N hdr with
   | .error e => "EXC:" ++ e
   | .ok self => outItems self ++ "|" ++ outUse (use self offers)
+
+
+/-- `MultiPartParser.parse` as modelled by C01/C02/C10 (Model/Multipart.lean), on what the limited
+stream delivers; a stream that ends early raises `ClientDisconnected` instead of delivering EOF -/
+def mpOf (bnd : Bytes) (cfg : Wz.Req.BodyCfg) (w : Wz.Req.Wire) : Except String Wz.Req.FormResult :=
+  let conv (fields : List (Option Str × Str)) (files : List Wz.Multipart.FileItem) : Wz.Req.FormResult :=
+    { fields := fields, files := files.map fun f => (f.name, f.filename, f.content) }
+  if w.disc then
+    let chunks := Wz.Multipart.readChunks 65536 w.body.length [] w.body
+    match Wz.Multipart.formLoop cfg.maxFormMemorySize
+        (Wz.Multipart.mkDecoder bnd cfg.maxFormMemorySize cfg.maxFormParts) {} (chunks.map some) with
+    | .error e => .error e
+    | .ok _ => .error "ClientDisconnected"
+  else
+    match Wz.Multipart.formParse bnd cfg.maxFormMemorySize cfg.maxFormParts 65536 [] w.body with
+    | .error e => .error e
+    | .ok (fields, files) => .ok (conv fields files)
+
+def bodyAttrArg : String → Option Wz.Req.BodyAttr
+  | "form" => some .form | "files" => some .files | "values" => some .values | "data" => some .data
+  | "get_data" => some .getData | "json" => some .json | "get_json" => some .getJsonSilent | "stream" => some .stream
+  | "want_form_data_parsed" => some .wantFormDataParsed
+  | _ => none
+
+def formOut (r : Wz.Req.FormResult) : String :=
+  outList (fun (k, v) => outOpt hexStr k ++ ":" ++ hexStr v) r.fields ++ "|" ++
+  outList (fun (k, fnm, c) => outOpt hexStr k ++ ":" ++ hexStr fnm ++ ":" ++ hex c) r.files
 
 def handle : Handler
   | "req.args", [qs] =>
@@ -73,6 +102,20 @@ def handle : Handler
       | "lang" => some (acceptCmd Wz.Accept.langNeg h offers Wz.Req.useLanguages)
       | _ => some badArgs
     | _, _, _ => some badArgs
+  | "req.body", [attr, method, ct, cl, te, qs, body, disc, jl, maxcl] =>
+    -- first access of a body attribute: `jl` is what json.loads answered for this body (`ok` or a class)
+    match bodyAttrArg attr, unhexStr method, optArg unhexStr ct, optArg unhexStr cl, optArg unhexStr te, unhexStr qs,
+        unhex body, boolArg disc, optArg natArg maxcl with
+    | some attr, some method, some ct, some cl, some te, some qs, some body, some disc, some maxcl =>
+      let e : Wz.Req.Env := { contentType := ct, contentLength := cl, transferEncoding := te, queryString := qs }
+      let bx : Wz.Req.BodyExt := ⟨mpOf, fun _ => if jl == "ok" then .ok () else .error jl⟩
+      let cfg : Wz.Req.BodyCfg := { maxContentLength := maxcl }
+      let w : Wz.Req.Wire := ⟨body, disc⟩
+      match attr with
+      | .form | .files =>
+        some (exc formOut (Wz.Req.formValue bx cfg e w))
+      | a => some (exc (fun _ => "ok") (Wz.Req.bodyOutcome bx cfg e method w a))
+    | _, _, _, _, _, _, _, _, _ => some badArgs
   | "req.ifrange", [h, dateOf] =>
     -- `parse_date` is Python's: the harness passes what it answered for this value (`~` = None)
     match optArg unhexStr h, optArg natArg dateOf with
